@@ -1,0 +1,51 @@
+//go:build verif
+
+package eio
+
+import (
+	"github.com/karagenc/socket.io-go/engine.io/parser"
+	"github.com/karagenc/socket.io-go/engine.io/transport"
+)
+
+// verifRecTransport records what the client socket hands to its transport.
+type verifRecTransport struct {
+	name    string
+	batches [][]*parser.Packet
+}
+
+func (t *verifRecTransport) Name() string { return t.name }
+func (t *verifRecTransport) Handshake() (*parser.HandshakeResponse, error) {
+	return nil, nil
+}
+func (t *verifRecTransport) Run() {}
+func (t *verifRecTransport) Send(packets ...*parser.Packet) {
+	t.batches = append(t.batches, append([]*parser.Packet(nil), packets...))
+}
+func (t *verifRecTransport) Discard() {}
+func (t *verifRecTransport) Close()   {}
+
+// VerifBatch runs the client's write batching (clientSocket.Send ->
+// writeWritablePackets) for one Send call and returns the batches handed to
+// the transport, in order.
+func VerifBatch(maxPayload int64, transportName string, packets []*parser.Packet) [][]*parser.Packet {
+	t := &verifRecTransport{name: transportName}
+	s := &clientSocket{
+		transport:  t,
+		maxPayload: maxPayload,
+		debug:      NewNoopDebugger(),
+		callbacks:  Callbacks{},
+	}
+	_ = transport.NewCallbacks
+	s.Send(packets...)
+	return t.batches
+}
+
+// VerifStoreSize is the number of live Engine.IO sessions.
+func VerifStoreSize(s *Server) int {
+	s.store.mu.RLock()
+	defer s.store.mu.RUnlock()
+	return len(s.store.sockets)
+}
+
+// VerifGenerateSID exposes the session id generator.
+func VerifGenerateSID(s *Server) (string, error) { return s.generateSID() }
